@@ -74,6 +74,7 @@ type Engine struct {
 	globalIDs   map[*ssa.Global][2]int
 	overlay     map[string]string
 	srcLines    map[string][]string
+	lastPure    Value
 	fnByName    map[string]*ssa.Function
 	curInstr    ssa.Instruction
 	inAtomic    bool
@@ -130,6 +131,13 @@ type State struct {
 	locks   int
 	syncMaps map[int][]MapEntry
 	stubs    []stubRec
+	sprintfs []sprintfRec
+}
+
+// sprintfRec: one fmt.Sprintf call (constant format, argument values) - the "output" of printing code
+type sprintfRec struct {
+	format string
+	args   []Value
 }
 
 // stubRec remembers one call of a contract stub: its arguments (option structs are read back by the harness)
@@ -156,6 +164,7 @@ func (st *State) clone() *State {
 	n.snaps = append([]snapRec(nil), st.snaps...)
 	n.poolPolicy, n.sharing, n.locks = st.poolPolicy, st.sharing, st.locks
 	n.stubs = append([]stubRec(nil), st.stubs...)
+	n.sprintfs = append([]sprintfRec(nil), st.sprintfs...)
 	if st.syncMaps != nil {
 		n.syncMaps = map[int][]MapEntry{}
 		for k, v := range st.syncMaps {
@@ -781,6 +790,11 @@ func (e *Engine) explore(st0 *State) {
 // ite-term, so that the caller continues as a single state. Returns false if the callee is not
 // mergeable (heap mutation or non-scalar result); the caller then performs an ordinary call.
 func (e *Engine) mergeCall(st *State, f *Frame, x *ssa.Call, fn *ssa.Function, args []Value) bool {
+	return e.mergeCallBind(st, f, x, fn, args, nil)
+}
+
+// mergeCallBind is mergeCall for closures; with x == nil the (single-group) joined result is left in e.lastPure
+func (e *Engine) mergeCallBind(st *State, f *Frame, x *ssa.Call, fn *ssa.Function, args []Value, bind []Value) bool {
 	e.flush(st)
 	type res struct {
 		ext []*Term
@@ -804,7 +818,13 @@ func (e *Engine) mergeCall(st *State, f *Frame, x *ssa.Call, fn *ssa.Function, a
 				ok = false
 			}
 		}
-		results = append(results, res{append([]*Term(nil), s.pc[npc:]...), s.frames[depth-1].env[x]})
+		var rv Value
+		if x != nil {
+			rv = s.frames[depth-1].env[x]
+		} else {
+			rv = s.retval
+		}
+		results = append(results, res{append([]*Term(nil), s.pc[npc:]...), rv})
 		for id, o := range s.heap {
 			if _, have := st.heap[id]; !have {
 				newObjs[id] = o
@@ -816,7 +836,7 @@ func (e *Engine) mergeCall(st *State, f *Frame, x *ssa.Call, fn *ssa.Function, a
 			}
 		}
 	}
-	e.pushFrame(base, fn, args, nil, x)
+	e.pushFrame(base, fn, args, bind, x)
 	outerForks := e.extraForks
 	e.extraForks = nil
 	e.explore(base)
@@ -882,6 +902,13 @@ func (e *Engine) mergeCall(st *State, f *Frame, x *ssa.Call, fn *ssa.Function, a
 	}
 	for g, id := range newGlobals {
 		st.globals[g] = id
+	}
+	if x == nil {
+		if len(groups) != 1 {
+			return false
+		}
+		e.lastPure = joined[0]
+		return true
 	}
 	if len(groups) == 1 {
 		f.env[x] = joined[0]
@@ -1794,7 +1821,12 @@ func (e *Engine) lookup(st *State, f *Frame, x *ssa.Lookup) Value {
 	if sv, isStr := e.val(st, f, x.X).(StringV); isStr { // s[i] on a string operand
 		idx := SExt(64, e.val(st, f, x.Index).(*Term))
 		e.require(st, Cmp("bvult", idx, sv.Len), "index", "string index out of range", x)
-		return e.obj(st, sv.Obj).Arr.Read(BinBV("bvadd", sv.Off, idx))
+		so := e.obj(st, sv.Obj)
+		at := BinBV("bvadd", sv.Off, idx)
+		if so.Const != nil && !at.IsConst() {
+			return tableMux(so.Const, at)
+		}
+		return so.Arr.Read(at)
 	}
 	m := e.val(st, f, x.X).(MapV)
 	k := e.val(st, f, x.Index)
@@ -1998,6 +2030,8 @@ func (e *Engine) builtin(st *State, f *Frame, x *ssa.Call, name string, args []V
 			return StringV{Off: c64(0), Len: c64(0)}
 		}
 		return StringV{Obj: p.Obj, Off: p.Path[0].Idx, Len: n}
+	case "recover":
+		return IfaceV{} // a panic ends the path as a failed obligation, so no panic is ever in flight here
 	case "clear":
 		switch a := args[0].(type) {
 		case SliceV:
@@ -2233,7 +2267,7 @@ func (e *Engine) intrinsic(st *State, f *Frame, x *ssa.Call, fn *ssa.Function, n
 		return nil, true
 	case "verifB2U":
 		return Ite(args[0].(*Term), c64(1), c64(0)), true
-	case "verifAssertDecodesLikeRef":
+	case "verifAssertDecodesLikeRef", "verifAssertAgreesIfRefAccepts":
 		return nil, true
 	case "verifNoAliasString", "verifNoAliasBytes":
 		// true iff the value is empty or does not share the buffer's backing object
@@ -2289,6 +2323,40 @@ func (e *Engine) intrinsic(st *State, f *Frame, x *ssa.Call, fn *ssa.Function, n
 			}
 		}
 		return False(), true
+	case "verifPrintCount":
+		return c64(uint64(len(st.sprintfs))), true
+	case "verifPrintReset":
+		st.sprintfs = nil
+		return nil, true
+	case "verifPrintIs":
+		i := int(concreteInt(args[0]))
+		return BoolC(i < len(st.sprintfs) && st.sprintfs[i].format == e.strConst(st, args[1])), true
+	case "verifPrintInt":
+		i, j := int(concreteInt(args[0])), int(concreteInt(args[1]))
+		if i >= len(st.sprintfs) || j >= len(st.sprintfs[i].args) {
+			return c64(0xdeadbeefdeadbeef), true
+		}
+		v := st.sprintfs[i].args[j]
+		if iv, ok := v.(IfaceV); ok {
+			v = iv.V
+			if t, ok := v.(*Term); ok {
+				if t.S.K == SBool {
+					return Ite(t, c64(1), c64(0)), true
+				}
+				signed := false
+				if b, ok := iv.T.Underlying().(*types.Basic); ok && b.Info()&types.IsUnsigned == 0 {
+					signed = true
+				}
+				if signed {
+					return SExt(64, t), true
+				}
+				return ZExt(64, t), true
+			}
+			if sv, ok := v.(StringV); ok {
+				return sv.Len, true
+			}
+		}
+		panic("verifPrintInt: argument is not an integer or string")
 	case "verifStubFailed":
 		want := e.strConst(st, args[0])
 		for i := len(st.stubs) - 1; i >= 0; i-- {
@@ -2393,6 +2461,19 @@ func (e *Engine) intrinsic(st *State, f *Frame, x *ssa.Call, fn *ssa.Function, n
 			}
 		}
 		return TupleV{IfaceV{}, False()}, true
+	case "(*sync.Map).LoadOrStore":
+		mp := args[0].(PtrV)
+		key := e.syncMapKey(args[1])
+		for _, en := range st.syncMaps[mp.Obj] {
+			if en.K.(string) == key {
+				return TupleV{en.V, True()}, true
+			}
+		}
+		if st.syncMaps == nil {
+			st.syncMaps = map[int][]MapEntry{}
+		}
+		st.syncMaps[mp.Obj] = append(append([]MapEntry(nil), st.syncMaps[mp.Obj]...), MapEntry{key, args[2]})
+		return TupleV{args[2], False()}, true
 	case "(*sync.Map).Store":
 		mp := args[0].(PtrV)
 		if st.sharing && st.shared[mp.Obj] {
@@ -2403,6 +2484,10 @@ func (e *Engine) intrinsic(st *State, f *Frame, x *ssa.Call, fn *ssa.Function, n
 		replaced := false
 		for i := range ents {
 			if ents[i].K.(string) == key {
+				if !e.sameValue(ents[i].V, args[2]) {
+					// a published cache entry changes its value: a goroutine that read the earlier one saw something else
+					e.cacheRewrite(st, x, key)
+				}
 				ents[i].V = args[2]
 				replaced = true
 			}
@@ -2422,6 +2507,14 @@ func (e *Engine) intrinsic(st *State, f *Frame, x *ssa.Call, fn *ssa.Function, n
 		}
 		return e.constString(""), true
 	case "fmt.Sprintf":
+		rec := sprintfRec{format: e.strConst(st, args[0])}
+		if sl, ok := args[1].(SliceV); ok && sl.Obj != 0 {
+			o := e.obj(st, sl.Obj)
+			for i := uint64(0); i < sl.Len.C; i++ {
+				rec.args = append(rec.args, o.Vec[sl.Off.C+i])
+			}
+		}
+		st.sprintfs = append(st.sprintfs, rec)
 		return e.constString("<sprintf>"), true
 	case "(*strings.Builder).WriteString":
 		return TupleV{args[1].(StringV).Len, IfaceV{}}, true
@@ -2463,8 +2556,23 @@ func (e *Engine) intrinsic(st *State, f *Frame, x *ssa.Call, fn *ssa.Function, n
 		}
 		e.require(st, False(), "panic", "reflect: call of reflect.Value.IsNil on a non-nilable kind", x)
 		return False(), true
+	case "strings.Count", "strings.Index", "strings.IndexByte":
+		if r, ok := e.stringsScan(st, f, x, name, args); ok {
+			return r, true
+		}
+	case "strings.Map":
+		if r, ok := e.stringsMap(st, f, x, args); ok {
+			return r, true
+		}
+	case "unicode.IsSpace":
+		// Latin-1 table of unicode.IsSpace, valid for the byte-valued runes the harnesses use
+		r := args[0].(*Term)
+		in := func(v uint64) *Term { return Eq(r, Const(32, v)) }
+		return Or(in(9), in(10), in(11), in(12), in(13), in(32), in(0x85), in(0xA0)), true
 	case "errors.Is":
 		return BoolC(e.errorsIs(st, args[0].(IfaceV), args[1].(IfaceV), 0)), true
+	case "strings.Repeat":
+		return e.constString("<strings.Repeat>"), true
 	case "sort.Strings":
 		return nil, true
 	case "strings.Join":
